@@ -1169,7 +1169,7 @@ package go_clipper2
 
 //@ func getClosestPtOnSegment
 //@   props C01 C13
-//@   requires dom(offPt,29) && dom(seg1,29) && dom(seg2,29)
+//@   assumes dom(offPt,29) && dom(seg1,29) && dom(seg2,29)
 //@   ensures [within-box] min(seg1.X, seg2.X) <= result.X && result.X <= max(seg1.X, seg2.X) && min(seg1.Y, seg2.Y) <= result.Y && result.Y <= max(seg1.Y, seg2.Y)
 
 //@ func PerpendicDistFromLineSqr64 variant maxcoord
@@ -1955,3 +1955,15 @@ package go_clipper2
 //@   nosafety
 //@   requires outrec != nil && (outrec.polypath != nil || rectEmpty(outrec.bounds))
 //@   ensures [untouched] outrec.polypath == old(outrec.polypath) && outrec.owner == old(outrec.owner)
+
+// an intersection of two active edges is recorded where the edges cross whenever that point lies
+// inside the current scanbeam; only points outside it are repaired (C01, and C08 through the union)
+//@ func clipperBase.addNewIntersectNode
+//@   props C01 C08 C03
+//@   nosafety
+//@   requires ae1 != nil && ae2 != nil
+//@   assumes dom(ae1.bot, 29) && dom(ae1.top, 29) && dom(ae2.bot, 29) && dom(ae2.top, 29) && absI(topY) <= pow2(29) && absI(c.currentBotY) <= pow2(29) && absI(ae1.curX) <= pow2(29)
+//@   assert after node [crossing-inside-the-scanbeam-is-kept] (ok && topY <= intersectPt.Y && intersectPt.Y <= c.currentBotY) ==> node.pt == intersectPt
+//@   assert after node [parallel-edges-meet-at-the-top] (!ok && topY <= c.currentBotY) ==> node.pt == Point64{ae1.curX, topY}
+//@   assert after node [default-repair-clamps-into-the-scanbeam] (absI(ae1.dx) <= 100 && absI(ae2.dx) <= 100 && topY <= c.currentBotY) ==> (topY <= node.pt.Y && node.pt.Y <= c.currentBotY)
+//@   ensures [node-appended] len(c.intersectList) == old(len(c.intersectList)) + 1 && c.intersectList[len(c.intersectList)-1] != nil && c.intersectList[len(c.intersectList)-1].edge1 == ae1 && c.intersectList[len(c.intersectList)-1].edge2 == ae2
